@@ -505,7 +505,9 @@ impl Context {
             (Literal::Map(m), CodegenTy::BTreeMap(k_ty, v_ty)) => {
                 (mk_map(m, k_ty, v_ty, true)?, false)
             }
-            (Literal::List(l), CodegenTy::LazyStaticRef(map)) => {
+            (Literal::List(l), CodegenTy::LazyStaticRef(map))
+                if matches!(**map, CodegenTy::Map(_, _) | CodegenTy::BTreeMap(_, _)) =>
+            {
                 assert!(l.is_empty());
                 match &**map {
                     CodegenTy::Map(_, _) => ("::pilota::AHashMap::new()".into(), false),
@@ -514,6 +516,10 @@ impl Context {
                     }
                     _ => panic!("invalid map type {:?}", map),
                 }
+            }
+            // a const of set type: the lazily initialised static holds the set itself
+            (Literal::List(_), CodegenTy::LazyStaticRef(set)) => {
+                (self.lit_into_ty(lit, set)?.0, false)
             }
             (Literal::List(l), CodegenTy::Map(_, _)) => {
                 assert!(l.is_empty());
